@@ -133,7 +133,7 @@ def run(chk):
             chk.broken("harness failure or unclassified error", dict(desc, scenario=s.case()))
             continue
         full = dict(desc, scenario=s.case())
-        res, log, store = impl[0]
+        res, log, store = impl[0][:3]
         if why and res[0] == 0:
             chk.violation("mix-and-match accepted: " + "; ".join(why), full)
         if not why and res[0] != 0:
